@@ -9,6 +9,7 @@ import argparse
 import json
 import os
 import random
+import re
 import sys
 import time
 import traceback
@@ -334,6 +335,9 @@ def c03(tier, seed):
     else:
         docs = family(seed, tier, nrand=300)
         ev = 3
+    # platform errors (error.execution) are internal events like any other: content blocks that raise, send to #_internal
+    # and fail in between (the C08 family) exercise the FIFO order of mixed enqueues
+    docs += docgen.c08_docs(random.Random(seed + 7), 4 if tier == "quick" else 16, max_variants=5)
     return core_check("C03", tier, seed, docs,
                       {"rtc-eventless-first", "rtc-iq-empty", "rtc-fifo", "rtc-idle-with-iq", "xorder", "noop"},
                       max_ev=ev, max_q=1, modes=("preload", "step"),
@@ -1033,10 +1037,12 @@ def c12(tier, seed):
             '<transition event="o1">' + snd + '</transition><transition event="o2">' + snd + '</transition></state></scxml>'
         for entry in ("execute",):
             jid = len(sjobs) + 1
-            job = {"id": jid, "sessions": [{"name": "A", "xml": adoc}, {"name": "B", "xml": bdoc, "entry": entry}], "timeout_ms": 20000,
+            job = {"id": jid, "sessions": [{"name": "A", "xml": adoc}, {"name": "B", "xml": bdoc, "entry": entry},
+                                           {"name": "C", "xml": bdoc.replace('name="B"', 'name="C"'), "entry": entry}], "timeout_ms": 20000,
                    "steps": [{"start": "A"}, {"start": "B"}, {"settle": 30}, {"send": "A", "event": {"name": "init", "params": {"peer": "$sid:B"}}},
                              {"send": "A", "event": "o1"}, {"send": "A", "event": "probe"}, {"settle": 30}, {"send": "B", "event": "quit"},
-                             {"await_end": "B"}, {"send": "A", "event": "o2"}, {"send": "A", "event": "probe"}, {"settle": 40}]}
+                             {"await_end": "B"}, {"start": "C"}, {"settle": 20},
+                             {"send": "A", "event": "o2"}, {"send": "A", "event": "probe"}, {"settle": 40}]}
             if dm == "ecmascript":
                 job["options"] = {"ecma:strict": ""}
             sjobs.append(job)
@@ -1435,6 +1441,17 @@ def c15(tier, seed):
                  "steps": [{"threads": [[{"start": "S%d" % i}, {"send": "S%d" % i, "event": "genid"}, {"send": "S%d" % i, "event": "genid"}] for i in range(16)]},
                            {"settle": 60}]})
     meta[jid] = ("concurrent-start", "rfsm-expression", [{"name": "S%d" % i, "parent": "", "invokeid": ""} for i in range(16)], [])
+    # ids over time: sessions that have ended (and were disposed) do not hand their ids to later ones
+    qdoc = lambda n: ('<scxml xmlns="http://www.w3.org/2005/07/scxml" version="1.0" datamodel="rfsm-expression" name="%s"><state id="s">'
+                      '<transition event="quit" target="f"/></state><final id="f"/></scxml>' % n)
+    later = [{"name": "Q%d" % i, "xml": qdoc("Q%d" % i), "entry": "execute"} for i in range(4)] + \
+            [{"name": "R%d" % i, "xml": qdoc("R%d" % i), "entry": "execute" if i % 2 else "start"} for i in range(4)]
+    jid = len(jobs) + 1
+    jobs.append({"id": jid, "sessions": later, "timeout_ms": 60000,
+                 "steps": [{"start": "Q%d" % i} for i in range(4)] + [{"settle": 30}] +
+                          [{"send": "Q%d" % i, "event": "quit"} for i in (3, 1, 0, 2)] + [{"await_end": "Q%d" % i} for i in range(4)] +
+                          [{"start": "R%d" % i} for i in range(4)] + [{"settle": 30}]})
+    meta[jid] = ("ids-over-time", "rfsm-expression", [{"name": x["name"], "parent": "", "invokeid": ""} for x in later], [])
     res = {}
     for j in jobs:       # one process per scenario: generated ids are process-global counters
         res.update(run_scen_jobs([j], wd, name="scen-%d" % j["id"], threads=1))
@@ -1533,7 +1550,7 @@ def c14_docs(dm):
         '<transition event="ping"><send target="#_kid" event="ping"/></transition>' \
         '<transition event="finish"><send target="#_kid" event="fin"/></transition>' \
         '<transition event="*">' + recv + '</transition></state>' \
-        '<state id="sB"><invoke type="scxml" id="kidB"><content>' + plain("C3") + '</content></invoke>' \
+        '<state id="sB"><invoke type="scxml"><content>' + plain("C3") + '</content></invoke>' \
         '<transition event="back" target="s0"/><transition event="*">' + recv + '</transition></state>' \
         '<state id="sE"><invoke type="scxml" id="kidE"><param name="a" expr="nosuchvar_c14"/><content>' + plain("CE") + '</content></invoke>' \
         '<invoke type="scxml" id="kidE2"><content>' + plain("CE2") + '</content></invoke>' \
@@ -1544,7 +1561,7 @@ def c14_docs(dm):
            {"state": "sT", "child": "CT", "id": "kidT", "fwd": False, "fin": False},
            {"state": "sA", "child": "C1", "id": "kid", "fwd": False, "fin": True, "direct": ["ping", "fin"]},
            {"state": "sA", "child": "C2", "id": "kidf", "fwd": True, "fin": False},
-           {"state": "sB", "child": "C3", "id": "kidB", "fwd": False, "fin": False}]
+           {"state": "sB", "child": "C3", "id": "gen:sB", "fwd": False, "fin": False}]      # no id attribute: generated "sB.<n>"
     for x in inv:
         x.setdefault("direct", [])
         x.setdefault("opt", False)
@@ -1567,7 +1584,8 @@ def c14(tier, seed):
     S = {"settle": 40}
     scripts = {
         "full-cycle": ["go", S, "ext1", "ping", S, "finish", S, "ext2", "leave", S],
-        "transient": ["tr", S, "ext1", "back", S],
+        "transient": ["tr", S, "ext1", "back", S, "ext2", S],
+        "generated-id": ["tr", S, "back", S, "tr", S, "ext1", S, "back", {"settle": 80}],
         "reenter": ["go", S, "leave", S, "go", S, "finish", S, "leave", S],
         "rapid-enter-leave": ["go", "leave", "go", "leave", S],
         "rapid-finish-leave": ["go", S, "finish", "leave", S],
@@ -1669,7 +1687,9 @@ def c14(tier, seed):
             elif k == "CI":
                 prec.append({"k": "cancel", "a": "", "b": ""})
             elif k == "XR" and x[1]["name"] != "error.platform.cancel":
-                prec.append({"k": "xr", "a": x[1]["name"], "b": x[1]["invokeid"] or ""})
+                # generated invoke ids (stateid.platformid) are replaced by a stable name
+                gen = lambda t: re.sub(r"\b(s[A-Z])\.\d+$", r"gen:\1", t)
+                prec.append({"k": "xr", "a": gen(x[1]["name"]), "b": gen(x[1]["invokeid"] or "")})
             elif k == "M" and x[1] == "fin":
                 prec.append({"k": "fin", "a": tracelib.val_str(x[2][0]) if x[2] else "", "b": ""})
             elif k == "SV":
